@@ -73,7 +73,7 @@ theorem wchain_walk {p : Pool} {q : Option Name} {x : ObjId} {t : Name} (hnd : N
       simp only [walk, hy]
       cases htx : (p.obj x).cls.trait (attrName d q n) with
       | defer d' => exact absurd htx (hnd d')
-      | plain a b => rfl
+      | plain a b c => rfl
       | python => rfl
   | succ k ih =>
     intro o n d f htd h hf
